@@ -22,7 +22,8 @@ def single_batch(jobs_path, out_path):
         np.random.seed(j["seed"])
         try:
             with contextlib.redirect_stdout(io.StringIO()):
-                nll, dl, params = fs.single_function(list(j["labels"]), j["basis"], like, pmin=0, pmax=3, Niter=40, Nconv=5, return_params=True)
+                nll, dl, params = fs.single_function(list(j["labels"]), j["basis"], like, pmin=0, pmax=3, Niter=40, Nconv=5, return_params=True,
+                                                     log_opt=bool(j.get("log_opt", False)))
             rec.update(nll=float(nll), dl=float(dl), params=[float(v) for v in params])
         except Exception as e:
             rec["raised"] = "%s: %s" % (type(e).__name__, e)
@@ -154,9 +155,18 @@ def run(tier, replay=None):
             louts = json.load(open(op))
             # the labels entry point on trees with (negative) integer constants: returned DL = likelihood + parameter code + Trees!Code
             ilabs = [["*", "a0", "pow", "x", "-2"], ["+", "*", "a0", "x", "-2"], ["+", "*", "a0", "pow", "x", "-3", "a1"], ["/", "a0", "pow", "x", "2"], ["+", "*", "a0", "x", "3"]]
+            # trees in which a parameter cancels (library trees of complexity 7: the pipeline fits the simplified function and charges the tree's own
+            # code): [labels, labels of the function that is left]; the closed form is that of the reduced function
+            cancel = {("+", "*", "a0", "x", "-", "a1", "a1"): ["*", "a0", "x"], ("+", "-", "a0", "a0", "*", "a1", "x"): ["*", "a0", "x"],
+                      ("+", "-", "a0", "a0", "+", "a1", "*", "a2", "x"): ["+", "a0", "*", "a1", "x"]}
+            ilabs += [list(k_) for k_ in cancel]
             ilabs = [l for l in ilabs if all(t in sum(basis, []) or t in ("x",) or t.startswith("a") or t.lstrip("-").isdigit() for t in l)]
+            # the same entry point with the optimiser in log space (one and two parameters: sign branches), incl. parameters of opposite signs
+            logopt = [["+", "a0", "*", "a1", "x"], ["+", "*", "a0", "x", "a1"], ["*", "a0", "x"], ["-", "*", "a0", "x", "a1"]]
+            nlin = len(ilabs)
+            ilabs += logopt
+            ijobs = [{"id": 2000 + q, "labels": lab, "infix": "x", "basis": basis, "data_dir": dd, "fn_set": name, "seed": evidence.seed() + q, "log_opt": q >= nlin} for q, lab in enumerate(ilabs)]
             icodes = common.model_codes(r, ilabs, "codes_int_%s_%d_%d" % (name, n, di))
-            ijobs = [{"id": 2000 + q, "labels": lab, "infix": "x", "basis": basis, "data_dir": dd, "fn_set": name, "seed": evidence.seed() + q} for q, lab in enumerate(ilabs)]
             jp2, op2 = os.path.join(s, "c20_int.json"), os.path.join(s, "c20_int_out.json")
             json.dump(ijobs, open(jp2, "w"))
             io_ = pool.parallel("checks.c20:single_batch", [(jp2, op2)], s, timeout=3000)
@@ -164,25 +174,33 @@ def run(tier, replay=None):
                 raise RuntimeError("single-fit worker failed: " + io_[0][1][-800:])
             for o in json.load(open(op2)):
                 lab = ilabs[o["id"] - 2000]
-                key = "%s:n%d:d%d:intlabels:%s" % (name, n, di, "_".join(lab))
+                key = "%s:n%d:d%d:intlabels:%s%s" % (name, n, di, "_".join(lab), ":log_opt" if o["id"] - 2000 >= nlin else "")
                 if "raised" in o:
                     r.violation("raised:" + key, "single_function(%s) raised %s" % (lab, o["raised"]), {"labels": lab})
                     continue
                 try:
-                    ft = wls.fit(lab, x, y, sig)
+                    ft = wls.fit(cancel.get(tuple(lab), lab), x, y, sig)
                 except wls.NotLinear:
                     continue
                 k_ = ft["k"]
                 th = o["params"][:k_]
+                if tuple(lab) in cancel and (any(v != 0.0 for v in o["params"][k_:]) or not (math.isfinite(o["nll"]) and math.isfinite(o["dl"]))):
+                    r.violation(key + ":cancelled_parameter", "single_function(%s): the tree's function is %s (a parameter cancels), fitted nll %s DL %s params %s; the closed form of the remaining function is nll %.6f" % (
+                        lab, cancel[tuple(lab)], o["nll"], o["dl"], o["params"], ft["nll"]), {"labels": lab, "single": o})
+                    continue
                 kept = [j for j in range(k_) if th[j] != 0.0]
                 tcode = libproj.code_value(icodes[o["id"] - 2000])
                 plen_cf = wls.codelen(th, np.diag(ft["I"]), kept) if kept else 0.0
                 sum_ok = math.isfinite(o["dl"]) and abs((o["dl"] - o["nll"] - tcode) - plen_cf) <= 2e-5 * max(1.0, abs(plen_cf))
-                c3 = classes({"s": o["nll"], "c": ft["nll"]}, lambda m: max(2e-3, 2e-6 * m))
-                cases.append({"id": len(cases), "kind": "single", "sumOK": bool(sum_ok), "paramsOK": True, "hasPipe": False, "tie": True,
-                              "nllSingle": c3["s"], "nllClosed": c3["s"] if len(kept) != k_ else c3["c"], "dlSingle": 0, "dlClosed": 0, "nllPipe": NAN, "dlPipe": NAN})
-                meta.append((key, "labels %s: DL %.6f - nll %.6f - tree code %.6f (Trees!Code %s) = %.6f, closed-form parameter code %.6f" % (
-                    lab, o["dl"], o["nll"], tcode, icodes[o["id"] - 2000], o["dl"] - o["nll"] - tcode, plen_cf), {"labels": lab, "single": o}))
+                # closed form of the whole answer: likelihood at the (snapped) ML point, and the DL interval over threshold ties
+                lo_dl, hi_dl, _info = wls.description_lengths(cancel.get(tuple(lab), lab), x, y, sig, tcode)
+                t2 = np.array([0.0 if j not in kept else ft["theta"][j] for j in range(k_)])
+                nll_cf = ft["nll"] if len(kept) == k_ else wls.gauss_nll(ft["phi0"] + ft["Phi"] @ t2, y, sig)
+                c3 = classes({"s": o["nll"], "c": nll_cf, "dS": o["dl"], "dC": hi_dl}, lambda m: max(2e-3, 2e-6 * m))
+                cases.append({"id": len(cases), "kind": "single", "sumOK": bool(sum_ok), "paramsOK": True, "hasPipe": False, "tie": bool(hi_dl - lo_dl > 1e-9),
+                              "nllSingle": c3["s"], "nllClosed": c3["c"], "dlSingle": c3["dS"], "dlClosed": c3["dC"], "nllPipe": NAN, "dlPipe": NAN})
+                meta.append((key, "labels %s: nll %.6f (closed form %.6f) DL %.6f (closed form in [%.6f, %.6f]) params %s; DL - nll - tree code %.6f (Trees!Code %s) = %.6f, closed-form parameter code %.6f" % (
+                    lab, o["nll"], nll_cf, o["dl"], lo_dl, hi_dl, th, tcode, icodes[o["id"] - 2000], o["dl"] - o["nll"] - tcode, plen_cf), {"labels": lab, "single": o}))
             for o in louts:
                 f, lab = lit[o["id"] - 1000]
                 key = "%s:n%d:d%d:literal:%s" % (name, n, di, f)
